@@ -116,6 +116,30 @@ type env struct {
 	docs     []interface{}
 }
 
+// safeCompile is Compile with panics turned into an outcome: the harness must survive
+// whatever the code under test does.
+func safeCompile(src string) (jp *jmespath.JMESPath, out Outcome) {
+	defer func() {
+		if r := recover(); r != nil {
+			jp = nil
+			if _, ok := r.(simrt.StepCapExceeded); ok {
+				out = Outcome{Kind: "stepcap"}
+			} else {
+				out = Outcome{Kind: "panic", ErrMsg: fmt.Sprint(r)}
+			}
+		}
+	}()
+	j, err := jmespath.Compile(src)
+	if err != nil {
+		o := Outcome{Kind: "error", ErrType: errType(err), ErrMsg: err.Error()}
+		if se, ok := err.(jmespath.SyntaxError); ok {
+			o.Val = se
+		}
+		return nil, o
+	}
+	return j, Outcome{Kind: "value"}
+}
+
 func errType(err error) string {
 	if err == nil {
 		return ""
@@ -275,7 +299,12 @@ func onSwitch(from, to int, site int32) {
 
 // observeEqual is the observer's read-only walk: ordinary (race-visible) loads of
 // every element up to capacity, compared with the pristine twin.
-func observeEqual(a, b interface{}) bool {
+func observeEqual(a, b interface{}) bool { return observeEqualD(a, b, 0) }
+
+func observeEqualD(a, b interface{}, d int) bool {
+	if d > maxDepth {
+		return false
+	}
 	switch x := a.(type) {
 	case []interface{}:
 		y, ok := b.([]interface{})
@@ -284,7 +313,7 @@ func observeEqual(a, b interface{}) bool {
 		}
 		fx, fy := x[:cap(x)], y[:cap(y)]
 		for i := range fx {
-			if !observeEqual(fx[i], fy[i]) {
+			if !observeEqualD(fx[i], fy[i], d+1) {
 				return false
 			}
 		}
@@ -296,7 +325,7 @@ func observeEqual(a, b interface{}) bool {
 		}
 		for k, e := range x {
 			f, ok := y[k]
-			if !ok || !observeEqual(e, f) {
+			if !ok || !observeEqualD(e, f, d+1) {
 				return false
 			}
 		}
@@ -369,9 +398,9 @@ func reference(w *Workload, op Op) Outcome {
 	e := &env{exprs: w.Exprs, compiled: make([]*jmespath.JMESPath, len(w.Exprs)), docs: make([]interface{}, len(w.Docs))}
 	e.docs[op.Doc] = w.Docs[op.Doc].Build()
 	if op.Kind == "search" {
-		jp, err := jmespath.Compile(w.Exprs[op.Expr])
-		if err != nil {
-			return Outcome{Kind: "error", ErrType: errType(err), ErrMsg: err.Error()}
+		jp, o := safeCompile(w.Exprs[op.Expr])
+		if jp == nil {
+			return o
 		}
 		e.compiled[op.Expr] = jp
 	}
@@ -387,6 +416,7 @@ func runSched(w *Workload) *RunReport {
 	prop := w.Prop
 
 	// 1. references ("the same call made alone")
+	progressPhase(1)
 	refCache := map[Op]Outcome{}
 	rep.Refs = make([][]Outcome, len(w.Clients))
 	for ci, ops := range w.Clients {
@@ -402,6 +432,7 @@ func runSched(w *Workload) *RunReport {
 	}
 
 	// 2. pristine world for the concurrent phase
+	progressPhase(2)
 	zzverifrt.ResetAll()
 	e := &env{exprs: w.Exprs, compiled: make([]*jmespath.JMESPath, len(w.Exprs)), docs: make([]interface{}, len(w.Docs))}
 	pristine := make([]interface{}, len(w.Docs))
@@ -412,9 +443,9 @@ func runSched(w *Workload) *RunReport {
 	for _, ops := range w.Clients {
 		for _, op := range ops {
 			if op.Kind == "search" && e.compiled[op.Expr] == nil {
-				jp, err := jmespath.Compile(w.Exprs[op.Expr])
-				if err != nil {
-					panic("workload uses search on an expression that does not compile: " + w.Exprs[op.Expr])
+				jp, _ := safeCompile(w.Exprs[op.Expr])
+				if jp == nil {
+					fatal2("workload uses search on an expression that does not compile: %q", w.Exprs[op.Expr])
 				}
 				e.compiled[op.Expr] = jp
 			}
@@ -490,6 +521,7 @@ func runSched(w *Workload) *RunReport {
 	}
 
 	// 4. oracles
+	progressPhase(3)
 	for ci := range rep.Outcomes {
 		recheck(rep.Outcomes[ci], len(rep.Outcomes[ci]), "after all clients finished")
 	}
